@@ -1109,6 +1109,8 @@ pub struct Gen {
     pub walk: usize,
     /// the FOpts command stream of the previous authentic downlink (sometimes sent again: commands are idempotent)
     pub last_fopts: Vec<u8>,
+    /// the CFList of the previous JoinAccept (sometimes sent again: a re-join usually repeats the channel list)
+    pub last_cf: Option<(i32, Vec<u8>)>,
 }
 
 fn rnd_vec(rng: &mut StdRng, n: usize) -> Vec<u8> {
@@ -1117,10 +1119,21 @@ fn rnd_vec(rng: &mut StdRng, n: usize) -> Vec<u8> {
 
 impl Gen {
     pub fn new(seed: u64, cfg: GenCfg) -> Gen {
-        Gen { rng: StdRng::seed_from_u64(seed), cfg, sent: vec![], join_nonce: 1, walk: 0, last_fopts: vec![] }
+        Gen { rng: StdRng::seed_from_u64(seed), cfg, sent: vec![], join_nonce: 1, walk: 0, last_fopts: vec![], last_cf: None }
     }
 
     fn cflist(&mut self) -> (i32, Vec<u8>) {
+        if let Some(cf) = self.last_cf.clone() {
+            if self.rng.gen_ratio(1, 3) {
+                return cf;
+            }
+        }
+        let cf = self.cflist_fresh();
+        self.last_cf = Some(cf.clone());
+        cf
+    }
+
+    fn cflist_fresh(&mut self) -> (i32, Vec<u8>) {
         let fixed = self.cfg.region == "US915" || self.cfg.region == "AU915";
         match self.rng.gen_range(0..10) {
             0..=2 => (-1, vec![]),
@@ -1601,7 +1614,7 @@ pub fn mutate_doc(rng: &mut StdRng, doc: &str) -> String {
         7 => { v["fcnt_up"] = json!(-1); }
         8 => { v["fcnt_up"] = json!("7"); }
         9 => { v["confirmed"] = json!(1); }
-        10 => { v["adr_ack_cnt"] = json!([63u32, 64, 95, 96, 1_000_000][rng.gen_range(0..5)]); }
+        10 => { v["adr_ack_cnt"] = json!([63u32, 64, 95, 96, 1_000_000, 0x7FFF_FFFF, 0xFFFF_FFDF, 0xFFFF_FFFE, 0xFFFF_FFFF][rng.gen_range(0..9)]); }
         11 => { v["fcnt_down"] = json!(4294967295u64); v["fcnt_up"] = json!(4294967295u64); }
         12 => { if let Some(o) = v["uplink"].as_object_mut() { o.remove("confirmed"); } }
         13 => { v["extra"] = json!({"x": 1}); }
@@ -1730,7 +1743,8 @@ pub fn vh_mac(a: &Args) {
                     "async" => ("async", false),
                     _ => ("async", true),
                 };
-                for (sb, retries, dr, dl) in [(2u8, 2usize, 3u8, 0x00u8), (7, 4, 2, 0x10), (1, 4, 3, 0x20), (8, 3, 1, 0x00)] {
+                for (sb, retries, dr, dl, adr) in [(2u8, 2usize, 3u8, 0x00u8, false), (7, 4, 2, 0x10, false), (1, 4, 3, 0x20, false), (8, 3, 1, 0x00, false),
+                                                   (2, 8, 3, 0x00, true), (5, 4, 1, 0x10, true)] {
                     let appkey = [7u8; 16];
                     let ja = Net::join_accept(&appkey, [1, 0, 0], [1, 2, 3], [1, 2, 3, 4], dl, 1, -1, &[]);
                     let proc_ = |rx1: Vec<Frame>| Proc { tx: "done".into(), ts: 10, rx1, fault: -1, ..Default::default() };
@@ -1741,10 +1755,34 @@ pub fn vh_mac(a: &Args) {
                                        plan: proc_(vec![Frame { bytes: ja, snr: 5, intent: format!("ja:bias:dl={dl:#04x}") }]) },
                         Op::SetDr { dr },
                     ];
-                    for i in 0..=retries {
-                        ops.push(Op::Send { port: 4, data: vec![i as u8], confirmed: false, draws: vec![], plan: proc_(vec![]) });
+                    if !adr {
+                        for i in 0..=retries {
+                            ops.push(Op::Send { port: 4, data: vec![i as u8], confirmed: false, draws: vec![], plan: proc_(vec![]) });
+                        }
+                        let _ = run_history(out.shard(h), &ops, 1, None);
+                    } else {
+                        // the network commands a data rate with a LinkADRReq that leaves the channel mask exactly as it
+                        // is (ChMaskCntl 6: all 125 kHz channels on, ChMask: the 500 kHz channels): accepted, and a
+                        // channel mask from the network ends the join bias - the following uplinks use that data rate
+                        let mut i = 0usize;
+                        let mut g = |view: &View| -> Option<Op> {
+                            i += 1;
+                            if i > retries + 2 {
+                                return None;
+                            }
+                            let mut plan = proc_(vec![]);
+                            if i == 1 {
+                                let (nwk, app, ad) = view.keys?;
+                                let net = Net { nwk, app, addr: ad, sent: vec![] };
+                                let n = view.fcnt_down.map(|x| x + 1).unwrap_or(0);
+                                let fopts = [0x03, ((dr + 1) << 4) | 0x0f, 0xff, 0x00, 0x60];
+                                let bytes = net.data(n, false, false, &fopts, -1, &[], false, false);
+                                plan.rx1.push(Frame { bytes, snr: 5, intent: "auth:bias:linkadr-same-mask".into() });
+                            }
+                            Some(Op::Send { port: 4, data: vec![i as u8], confirmed: false, draws: vec![], plan })
+                        };
+                        let _ = run_history(out.shard(h), &ops, 1, Some(&mut g));
                     }
-                    let _ = run_history(out.shard(h), &ops, 1, None);
                     h += 1;
                 }
             }
